@@ -186,8 +186,7 @@ CLAIMED["C02"] = dict(
          "inputs at random times and run() trajectories under euler/heun/scipy/diffrax (sampling multiples, inputs) must "
          "agree with the NumPy backend, arguments matched by frontend name.",
     note="CPU only; julia/matlab not installed; a model refused by a backend with an exception is counted as rejected; "
-         "float32 compared at 2e-4; Fortran single-precision literals and case-insensitive name clashes are listed "
-         "findings.",
+         "float32 compared at 2e-4; torch calls on constant algebraic variables are a listed finding (F-02b).",
     design_ref="DESIGN.md §4 C02")
 
 CLAIMED["C14"] = dict(
@@ -300,7 +299,7 @@ NOTE_REPLACE = {
     "C10": ("negative numeric past coefficients are a listed finding.", "bundled parallel delayed connections are a listed "
             "finding (F-09g)."),
     "C18": ("literals not representable in float32 are a listed finding (single precision constants in generated Fortran).",
-            "case-insensitive clashes of user variables with E/PI/I are a listed finding."),
+            "parameters that only occur in boundary/integral conditions take the last PAR slots (listed finding F-18c)."),
 }
 for k, (field, txt) in EXTRA.items():
     CLAIMED[k][field] = CLAIMED[k][field] + txt
